@@ -284,9 +284,14 @@ fn mk_umad<G>(c: &UmadCase, gen: G) -> Umad<G> {
 
 /// C16 "repeated call histories on one operator value": use the mutator once on a clone of the genome with a
 /// throw-away generator before the compared call (about half of the cases); a stateless mutator cannot notice
-fn warm<M, G: Clone>(m: &M, g: &G, key: usize) where M: ec_core::operator::mutator::Mutator<G> {
+fn warm<M, G: Clone>(m: &M, g: &G, other: G, key: usize) where M: ec_core::operator::mutator::Mutator<G> {
     if key % 2 == 0 {
         let _ = catch_unwind(AssertUnwindSafe(|| { let mut t = SplitMix::new(0x77AB ^ key as u64); let _ = m.mutate(g.clone(), &mut t); }));
+    }
+    // ... and, in a third of the cases, once on a genome of the *other* kind (empty if this one is not, and the other
+    // way round): the empty-genome rate and the per-gene rates are separate settings of one value
+    if key % 3 == 0 {
+        let _ = catch_unwind(AssertUnwindSafe(|| { let mut t = SplitMix::new(0x51AB ^ key as u64); let _ = m.mutate(other, &mut t); }));
     }
 }
 
@@ -295,7 +300,7 @@ fn run_umad(c: &UmadCase, rng: &mut LinRng, mutant: Mutant) -> String {
         match c.fl {
             UFlavour::Bits => {
                 let g = Bitstring { bits: c.parent.iter().map(|x| *x == 1).collect() };
-                let m = mk_umad(c, ProbeBool); warm(&m, &g, c.parent.len() + c.add as usize % 7);
+                let m = mk_umad(c, ProbeBool); warm(&m, &g, Bitstring { bits: if c.parent.is_empty() { vec![true, false, true] } else { vec![] } }, c.parent.len() + c.add as usize % 7);
                 m.mutate(g, rng).unwrap().bits.iter().map(|b| *b as u64).collect()
             }
             UFlavour::VectorU32 => {
@@ -305,14 +310,14 @@ fn run_umad(c: &UmadCase, rng: &mut LinRng, mutant: Mutant) -> String {
                     let empty = match c.ctor { UCtor::New => Some(f64::from_bits(c.add)), UCtor::WithEmptyRate => Some(f64::from_bits(c.empty)), UCtor::WithoutEmpty => None };
                     mutant_umad(mutant, f64::from_bits(c.add), f64::from_bits(c.del), empty, g, rng).iter().map(|x| *x as u64).collect()
                 } else {
-                    let m = mk_umad(c, ProbeU32); let gv = Vector { genes: g }; warm(&m, &gv, c.parent.len() + c.del as usize % 5);
+                    let m = mk_umad(c, ProbeU32); let gv = Vector { genes: g }; warm(&m, &gv, Vector { genes: if c.parent.is_empty() { vec![7u32, 8, 9] } else { vec![] } }, c.parent.len() + c.del as usize % 5);
                     m.mutate(gv, rng).unwrap().genes.iter().map(|x| *x as u64).collect()
                 }
             }
             UFlavour::Plushy => {
                 let g = Plushy::new(c.parent.iter().map(|x| gene_of_code(*x)));
                 let gg = ProbeInstr { n: c.n_instr }.into_gene_generator_with_close_probability(f32::from_bits(c.close));
-                let m = mk_umad(c, gg); warm(&m, &g, c.parent.len() + c.n_instr);
+                let m = mk_umad(c, gg); warm(&m, &g, Plushy::new(if c.parent.is_empty() { vec![gene_of_code(1), gene_of_code(2)] } else { vec![] }), c.parent.len() + c.n_instr);
                 m.mutate(g, rng).unwrap().get_genes().iter().map(code_of).collect()
             }
         }
